@@ -96,14 +96,18 @@ def install_seams() -> None:
     import warnings
     warnings.simplefilter("ignore")
 
+    def _seq() -> int:
+        w = CLOCK.get("world")
+        return len(w.events) if w is not None else -1
+
     def recording_get_task_delay(task: ScheduledTask) -> Optional[int]:
         now = wall_us()
         try:
             res = _orig_get_task_delay(task)
         except BaseException as exc:
-            DELAY_LOG.append((now, task, ("raise", type(exc).__name__)))
+            DELAY_LOG.append((now, task, ("raise", type(exc).__name__), _seq()))
             raise
-        DELAY_LOG.append((now, task, res))
+        DELAY_LOG.append((now, task, res, _seq()))
         return res
 
     run_mod.get_task_delay = recording_get_task_delay  # type: ignore[assignment]
@@ -505,6 +509,7 @@ def simulate(script: dict) -> SRun:
     CLOCK["local_off_min"] = script["start"].get("local_off_min", 0)
     set_process_tz(script["start"].get("tz", "UTC"))
     CLOCK["loop"] = loop
+    CLOCK["world"] = world
     CLOCK["fixed_us"] = None
     run = SRun()
     run.script = script
@@ -540,6 +545,7 @@ def simulate(script: dict) -> SRun:
         finally:
             asyncio.set_event_loop(None)
             CLOCK["loop"] = None
+            CLOCK["world"] = None
             set_process_tz("UTC")
             if gc_was:
                 gc.enable()
